@@ -1,10 +1,6 @@
 (* C17: wrapper header layout, wrap/unwrap round trip, length mismatch refused, and the TCP
    receive returns exactly the announced payload for every way of splitting the stream. *)
-From Dlms Require Import Base WrapperModel.
-
-(* reference layout: four big-endian 16-bit fields, version first *)
-Definition std_header (ver src dst ln : N) : bytes :=
-  be_bytes 2 ver ++ be_bytes 2 src ++ be_bytes 2 dst ++ be_bytes 2 ln.
+From Dlms Require Import Base WrapperModel WrapperSpec.
 
 Lemma to_bytes_be_ok k n : n < 256 ^ N.of_nat k -> to_bytes_be k n = Ok (be_bytes k n).
 Proof. intros H. unfold to_bytes_be. apply N.ltb_lt in H. rewrite H. reflexivity. Qed.
